@@ -29,6 +29,9 @@ Next ==
             IF ok = {} THEN alive' = FALSE /\ UNCHANGED <<st, cfg>>
             ELSE \E e \in ok : st' = e[2] /\ UNCHANGED <<cfg, alive>>
        [] r.ev = "dump" -> alive' = DumpOK(r) /\ UNCHANGED <<st, cfg>>
+       \* parallel iteration over the nodes: every live node exactly once, nothing else
+       [] r.ev = "piter" -> /\ alive' = (r.bad = 0 /\ SetOf(r.nodes) = st.nodes /\ Len(r.nodes) = Cardinality(st.nodes))
+                            /\ UNCHANGED <<st, cfg>>
        [] r.ev = "end" -> PrintT(<<"ACCEPT", l>>) /\ UNCHANGED <<st, cfg, alive>>
        [] OTHER -> alive' = FALSE /\ UNCHANGED <<st, cfg>>      \* hang, crash
 Spec == Init /\ [][Next]_vars
